@@ -139,7 +139,7 @@ def run(ctx):
             bad = []
 
             def walk(x):
-                if x["k"] == "Sliced" and (T.range_slice(x["rs"]) is None or T.range_slice(x["cs"]) is None):
+                if x["k"] == "Sliced" and (x.get("ia") or T.range_slice(x["rs"]) is None or T.range_slice(x["cs"]) is None):
                     bad.append(1)
                 for y in (x.get("ms") or ([x["a"]] if isinstance(x.get("a"), dict) else [])):
                     walk(y)
